@@ -70,6 +70,7 @@ func init() {
 		"verifrt.ExactDiv":      func(fr *frame, a []value) value { return fr.i.exact(token.QUO, a[0], a[1]) },
 		"verifrt.ExactShl":      func(fr *frame, a []value) value { return fr.i.exact(token.SHL, a[0], a[1]) },
 		"verifrt.ExactMulDiv64": vExactMulDiv64,
+		"verifrt.Stamp":         func(fr *frame, a []value) value { fr.i.stamp++; return fr.i.stamp },
 		"verifrt.And":           func(fr *frame, a []value) value { return fr.i.andV(a[0], a[1]) },
 		"verifrt.Or":            func(fr *frame, a []value) value { return fr.i.orV(a[0], a[1]) },
 		"verifrt.Not":           func(fr *frame, a []value) value { return fr.i.notV(a[0]) },
@@ -95,24 +96,24 @@ func init() {
 		"errors.New":   errorsNew,
 
 		// ---- sync
-		"(*sync.Mutex).Lock":        func(fr *frame, a []value) value { fr.i.mutexLock(fr.th, a[0].(*value)); return nil },
-		"(*sync.Mutex).Unlock":      func(fr *frame, a []value) value { fr.i.mutexUnlock(fr.th, a[0].(*value)); return nil },
-		"(*sync.Mutex).TryLock":     func(fr *frame, a []value) value { return fr.i.mutexTryLock(fr.th, a[0].(*value)) },
-		"(*sync.RWMutex).Lock":      func(fr *frame, a []value) value { fr.i.rwLock(fr.th, a[0].(*value)); return nil },
-		"(*sync.RWMutex).Unlock":    func(fr *frame, a []value) value { fr.i.rwUnlock(fr.th, a[0].(*value)); return nil },
-		"(*sync.RWMutex).RLock":     func(fr *frame, a []value) value { fr.i.rwRLock(fr.th, a[0].(*value)); return nil },
-		"(*sync.RWMutex).RUnlock":   func(fr *frame, a []value) value { fr.i.rwRUnlock(fr.th, a[0].(*value)); return nil },
-		"(*sync.RWMutex).TryLock":   func(fr *frame, a []value) value { return fr.i.rwTryLock(fr.th, a[0].(*value)) },
-		"(*sync.RWMutex).TryRLock":  func(fr *frame, a []value) value { return fr.i.rwTryRLock(fr.th, a[0].(*value)) },
-		"(*sync.WaitGroup).Add":     func(fr *frame, a []value) value { fr.i.wgAdd(fr.th, a[0].(*value), asInt64(a[1])); return nil },
-		"(*sync.WaitGroup).Done":    func(fr *frame, a []value) value { fr.i.wgAdd(fr.th, a[0].(*value), -1); return nil },
-		"(*sync.WaitGroup).Wait":    func(fr *frame, a []value) value { fr.i.wgWait(fr.th, a[0].(*value)); return nil },
-		"(*sync.Once).Do":           func(fr *frame, a []value) value { fr.i.onceDo(fr, a[0].(*value), a[1]); return nil },
-		"(*sync.Cond).Wait":         func(fr *frame, a []value) value { fr.i.condWait(fr, a[0].(*value)); return nil },
-		"(*sync.Cond).Signal":       func(fr *frame, a []value) value { fr.i.condSignal(fr.th, a[0].(*value)); return nil },
-		"(*sync.Cond).Broadcast":    func(fr *frame, a []value) value { fr.i.condBroadcast(fr.th, a[0].(*value)); return nil },
-		"(*sync.Pool).Get":          syncPoolGet,
-		"(*sync.Pool).Put":          nop,
+		"(*sync.Mutex).Lock":               func(fr *frame, a []value) value { fr.i.mutexLock(fr.th, a[0].(*value)); return nil },
+		"(*sync.Mutex).Unlock":             func(fr *frame, a []value) value { fr.i.mutexUnlock(fr.th, a[0].(*value)); return nil },
+		"(*sync.Mutex).TryLock":            func(fr *frame, a []value) value { return fr.i.mutexTryLock(fr.th, a[0].(*value)) },
+		"(*sync.RWMutex).Lock":             func(fr *frame, a []value) value { fr.i.rwLock(fr.th, a[0].(*value)); return nil },
+		"(*sync.RWMutex).Unlock":           func(fr *frame, a []value) value { fr.i.rwUnlock(fr.th, a[0].(*value)); return nil },
+		"(*sync.RWMutex).RLock":            func(fr *frame, a []value) value { fr.i.rwRLock(fr.th, a[0].(*value)); return nil },
+		"(*sync.RWMutex).RUnlock":          func(fr *frame, a []value) value { fr.i.rwRUnlock(fr.th, a[0].(*value)); return nil },
+		"(*sync.RWMutex).TryLock":          func(fr *frame, a []value) value { return fr.i.rwTryLock(fr.th, a[0].(*value)) },
+		"(*sync.RWMutex).TryRLock":         func(fr *frame, a []value) value { return fr.i.rwTryRLock(fr.th, a[0].(*value)) },
+		"(*sync.WaitGroup).Add":            func(fr *frame, a []value) value { fr.i.wgAdd(fr.th, a[0].(*value), asInt64(a[1])); return nil },
+		"(*sync.WaitGroup).Done":           func(fr *frame, a []value) value { fr.i.wgAdd(fr.th, a[0].(*value), -1); return nil },
+		"(*sync.WaitGroup).Wait":           func(fr *frame, a []value) value { fr.i.wgWait(fr.th, a[0].(*value)); return nil },
+		"(*sync.Once).Do":                  func(fr *frame, a []value) value { fr.i.onceDo(fr, a[0].(*value), a[1]); return nil },
+		"(*sync.Cond).Wait":                func(fr *frame, a []value) value { fr.i.condWait(fr, a[0].(*value)); return nil },
+		"(*sync.Cond).Signal":              func(fr *frame, a []value) value { fr.i.condSignal(fr.th, a[0].(*value)); return nil },
+		"(*sync.Cond).Broadcast":           func(fr *frame, a []value) value { fr.i.condBroadcast(fr.th, a[0].(*value)); return nil },
+		"(*sync.Pool).Get":                 syncPoolGet,
+		"(*sync.Pool).Put":                 nop,
 		"sync.runtime_registerPoolCleanup": nop,
 
 		// ---- runtime
